@@ -9,7 +9,7 @@ QUICK = ["omit_stub", "plain", "rename", "nested", "camel", "skip_gt_only", "map
 
 def build(tier, seed):
     quick = tier == "quick"
-    tmo = 120 if quick else 900
+    tmo = 120 if quick else 300
     names = QUICK if quick else list(MEMBERS)
     mods = []
     for name in names:
